@@ -11,7 +11,7 @@ Proof.
   intros c glo gs mu r H. unfold spec_extend in H.
   apply in_flat_map in H. destruct H as [g [_ H]]. apply in_flat_map in H. destruct H as [t [_ H]].
   destruct (spec_row c glo t) as [r0|]; [|destruct H].
-  destruct (compat_equiv mu r0); [|destruct H]. destruct H as [<-|[]]. apply sub_row_merge.
+  destruct (row_bounds_ok c mu t && compat_equiv mu r0); [|destruct H]. destruct H as [<-|[]]. apply sub_row_merge.
 Qed.
 
 Theorem spec_step_optional_never_removes : forall glo gs c mus,
